@@ -1,6 +1,8 @@
 import Rp2.Proofs.CliFiles
 import Rp2.Props.Tables.Types
 import Rp2.Proofs.ParseIds
+import Rp2.Proofs.IniCli
+import Rp2.Props.Tables.Consts
 /-! # C12 — malformed or contradictory input is rejected, never silently processed
 "Accepted ⇒ valid": every row that the model's constructors accept satisfies each documented constraint, so each
 documented fault (the negation of one conjunct) makes the constructor fail, and a failing data row aborts the parse. -/
@@ -39,5 +41,31 @@ theorem in_table_required (cfg : Config) (asset : String) (acct : String → Str
 theorem cli_fault_rejected (o : Cli.Options) (acctName holderOf : Nat → String) (cfgAssets : List String) (sheets : List Cli.AssetIn)
     (h : Cli.OptionFault o acctName cfgAssets sheets) :
     (Cli.run o acctName holderOf cfgAssets sheets).exit ≠ 0 ∧ (Cli.run o acctName holderOf cfgAssets sheets).files = [] := Cli.run_fault_rejected o acctName holderOf cfgAssets sheets h
+/-- **configuration file**: an accepted configuration has non-empty duplicate-free asset / exchange / holder lists without empty names,
+    three non-empty header maps that use only the column names of their table and give every name its own column, no unknown section,
+    and no accounting-method year before 1970 -/
+theorem config_accepted_is_valid (secs : List Ini.Section) (c : Ini.IniConfig) (h : Ini.ofIni secs = .ok c) :
+    (c.cfg.assets ≠ [] ∧ c.cfg.assets.Nodup ∧ ∀ v ∈ c.cfg.assets, v ≠ "") ∧
+    (c.cfg.exchanges ≠ [] ∧ c.cfg.exchanges.Nodup ∧ ∀ v ∈ c.cfg.exchanges, v ≠ "") ∧
+    (c.cfg.holders ≠ [] ∧ c.cfg.holders.Nodup ∧ ∀ v ∈ c.cfg.holders, v ≠ "") ∧
+    (c.cfg.inCols ≠ [] ∧ Ini.HeaderOk Ini.inAllowed c.cfg.inCols) ∧ (c.cfg.outCols ≠ [] ∧ Ini.HeaderOk Ini.outAllowed c.cfg.outCols) ∧
+    (c.cfg.intraCols ≠ [] ∧ Ini.HeaderOk Ini.intraAllowed c.cfg.intraCols) ∧
+    (∀ s ∈ secs, Ini.normName s.name ∈ ["general", "in_header", "out_header", "intra_header", "accounting_methods"]) ∧
+    (∀ p ∈ c.methods, 1970 ≤ p.1) := Ini.ofIni_ok secs c h
+/-- a configuration file that `configparser` refuses or that `Configuration.__init__` rejects: non-zero exit status, nothing written -/
+theorem config_fault_rejected (o : Cli.Options) (ini : Option (List Ini.Section)) (grids : List (String × List (List Cell)))
+    (h : ini = none ∨ ∃ secs e, ini = some secs ∧ Ini.ofIni secs = .error e) :
+    (Cli.runIni o ini grids).exit ≠ 0 ∧ (Cli.runIni o ini grids).files = [] := Cli.runIni_bad_config o ini grids h
+theorem header_column_table_agrees :
+    (Gen.headerColumns.map (·.1) == ["in_header", "intra_header", "out_header"] &&
+     Gen.headerColumns.all (fun p =>
+       let allowed := if p.1 == "in_header" then Ini.inAllowed else if p.1 == "out_header" then Ini.outAllowed else Ini.intraAllowed
+       p.2.all allowed.contains && allowed.all p.2.contains) && decide (Gen.minYear = 1970)) = true := Tables.header_columns_agree
+/- non-vacuity (evaluated, a test: the kernel cannot reduce the string functions): a three-section-plus-general configuration is accepted;
+   the same file with two names on one column is not -/
+#guard (Ini.ofIni [⟨"general", [("assets", "B1, B2"), ("exchanges", "Kraken"), ("holders", "Bob")]⟩, ⟨"in_header", [("timestamp", "0"), ("asset", "1")]⟩,
+    ⟨"out_header", [("timestamp", "0")]⟩, ⟨"intra_header", [("timestamp", "0")]⟩]).toBool
+#guard !(Ini.ofIni [⟨"general", [("assets", "B1, B2"), ("exchanges", "Kraken"), ("holders", "Bob")]⟩, ⟨"in_header", [("timestamp", "0"), ("asset", "0")]⟩,
+    ⟨"out_header", [("timestamp", "0")]⟩, ⟨"intra_header", [("timestamp", "0")]⟩]).toBool
 theorem type_table_agrees : Gen.types = Tables.allTypes.map Tables.modelRow := Tables.types_agree
 end Rp2.C12
